@@ -25,7 +25,18 @@ NumIdentity == << CT("N", "S"), Put(T1, [h |-> N10, r |-> S1(49), who |-> Num(1)
 BinOrder == << CT("S", "B"), Put(T1, [h |-> HS, r |-> Bin(<<10>>), who |-> Num(10)]), Put(T1, [h |-> HS, r |-> Bin(<<9>>), who |-> Num(9)]),
                Put(T1, [h |-> HS, r |-> Bin(<<9, 1>>), who |-> Num(91)]), Put(T1, [h |-> HS, r |-> Bin(<<200>>), who |-> Num(200)]),
                Q(HS, TRUE), Q(HS, FALSE), QR(HS, ">", Bin(<<9>>)), QR(HS, "<=", Bin(<<10>>)) >>
-Traces == { NumOrder, NumIdentity, BinOrder }
+Big(last) == Nm(FALSE, <<9,0,0,7,1,9,9,2,5,4,7,4,0,9,9,last>>, 0, <<57,48,48,55,49,57,57,50,53,52,55,52,48,57,57,48 + last>>)
+\* distinct numeric keys stay distinct, whatever their magnitude (number keys, canonical spellings only)
+BigKeys == << CT("N", "S"), Put(T1, [h |-> Big(2), r |-> S1(49), who |-> Num(2)]), Put(T1, [h |-> Big(3), r |-> S1(49), who |-> Num(3)]),
+              Get(T1, [h |-> Big(2), r |-> S1(49)]), Get(T1, [h |-> Big(3), r |-> S1(49)]),
+              Put(T1, [h |-> Num(7), r |-> S1(49), who |-> Num(7)]), Put(T1, [h |-> Num(70), r |-> S1(49), who |-> Num(70)]),
+              Del(T1, [h |-> Big(3), r |-> S1(49)], TRUE), Get(T1, [h |-> Big(2), r |-> S1(49)]), ScanOp("c1", T1, NoIndex, NoFilter, <<>>, <<>>),
+              Del(T1, [h |-> Num(7), r |-> S1(49)], TRUE), Get(T1, [h |-> Num(70), r |-> S1(49)]) >>
+BinKeys == << CT("B", "B"), Put(T1, [h |-> Bin(<<1, 2>>), r |-> Bin(<<3>>), who |-> Num(1)]), Put(T1, [h |-> Bin(<<1>>), r |-> Bin(<<2, 3>>), who |-> Num(2)]),
+              Put(T1, [h |-> Bin(<<12>>), r |-> Bin(<<3>>), who |-> Num(3)]),
+              Get(T1, [h |-> Bin(<<1, 2>>), r |-> Bin(<<3>>)]), Get(T1, [h |-> Bin(<<1>>), r |-> Bin(<<2, 3>>)]), Get(T1, [h |-> Bin(<<12>>), r |-> Bin(<<3>>)]),
+              ScanOp("c1", T1, NoIndex, NoFilter, <<>>, <<>>) >>
+Traces == { NumOrder, NumIdentity, BinOrder, BigKeys, BinKeys }
 ASSUME \A t \in Traces : PrintT(ToJson([kind |-> "trace", ops |-> t]))
 SetupDef == <<>>
 MenuDef == <<>>
